@@ -31,8 +31,16 @@ def run_seed(seed: int, check_id: str, batch: str, run: int) -> Rng:
 
 
 def make_plan(spec: Dict[str, Any], seed: int, batch: Dict[str, Any], run: int, tier: str) -> Dict[str, Any]:
-    rng = run_seed(seed, spec["stream"], batch["name"], run)
-    plan = spec["profile"].gen_plan(rng, tier, **batch.get("args", {}))
+    slots = batch.get("slots")
+    if slots:
+        # enumeration batch: `slots` consecutive runs share one base plan, slot j gets the j-th fault point
+        rng = run_seed(seed, spec["stream"], batch["name"], run // slots)
+        plan = spec["profile"].gen_plan(rng, tier, **batch.get("args", {}))
+        plan.setdefault("enumerate", {})["slot"] = run % slots
+        plan["enumerate"]["base"] = run // slots
+    else:
+        rng = run_seed(seed, spec["stream"], batch["name"], run)
+        plan = spec["profile"].gen_plan(rng, tier, **batch.get("args", {}))
     plan["check"] = spec["id"]
     plan["hash_seeds"] = list(driver.HASH_SEEDS)
     plan["seed"] = seed
@@ -49,7 +57,31 @@ def _one_run(args: Tuple[int, str, int, str]) -> Dict[str, Any]:
     t0 = time.time()
     try:
         plan = make_plan(spec, seed, batch, run, tier)
-        ex = driver.execute_plan(_HOST_INFO, plan)
+        enum_info = None
+        if plan.get("enumerate"):
+            from . import enumerate as enum
+            en = plan["enumerate"]
+            dry = driver.execute_plan(_HOST_INFO, {k: v for k, v in plan.items() if k != "enumerate"})
+            pts = enum.expand(enum.fault_points(dry, en["target"]), en["kinds"])
+            n_slots = batch.get("slots", 1)
+            if len(pts) > n_slots > 1:
+                # more points than slots (json.dump writes a plain .json token by token): take an evenly
+                # spaced sample that includes the first and the last point
+                pts = [pts[j * (len(pts) - 1) // (n_slots - 1)] for j in range(n_slots)]
+                sampled = True
+            else:
+                sampled = False
+            enum_info = {"base": en["base"], "slot": en["slot"], "points": len(pts), "executed": en["slot"] < len(pts),
+                         "sampled": sampled}
+            if en["slot"] < len(pts):
+                point, kind = pts[en["slot"]]
+                plan = enum.with_fault(plan, en["target"], point, kind)
+                ex = driver.execute_plan(_HOST_INFO, plan)
+            else:
+                plan = {k: v for k, v in plan.items() if k != "enumerate"}
+                ex = dry
+        else:
+            ex = driver.execute_plan(_HOST_INFO, plan)
         res = spec["profile"].check(plan, ex, set(spec["props"]))
         n_ops = sum(len(s["ops"]) for s in plan["sessions"])
         stats = {"sched_steps": 0, "choices": 0}
@@ -74,10 +106,13 @@ def _one_run(args: Tuple[int, str, int, str]) -> Dict[str, Any]:
         return {
             "run": run, "batch": batch_name, "digest": ex["digest"], "violations": res.violations,
             "probes": res.probes, "states": sorted(json.dumps(s) for s in res.states), "evals": res.oracle_evals,
-            "nontrivial": res.nontrivial, "harness": res.harness, "sessions": len(plan["sessions"]),
+            "nontrivial": res.nontrivial and (enum_info is None or enum_info["executed"]), "harness": res.harness, "sessions": len(plan["sessions"]),
             "ops": n_ops, "stats": stats, "faults_cfg": faults_cfg, "schedules": schedules,
             "wall": time.time() - t0,
             "sample": _sample_of(plan) if run < 2 else None,
+            "enum": enum_info,
+            # the concrete plan (with the enumerated fault) is needed to build a replay file
+            "plan": plan if (res.violations and enum_info) else None,
         }
     except Exception as exc:  # noqa: BLE001
         return {"run": run, "batch": batch_name, "digest": None, "violations": [], "probes": {}, "states": [],
@@ -223,7 +258,8 @@ def _report(spec: Dict[str, Any], tier: str, seed: int, jobs: int, results: List
             if v["property"] != prop:
                 other_props[v["property"]] = other_props.get(v["property"], 0) + 1
                 continue
-            g = groups.setdefault(v["sig"], {"v": v, "run": r["run"], "batch": r["batch"], "runs": 0})
+            g = groups.setdefault(v["sig"], {"v": v, "run": r["run"], "batch": r["batch"], "runs": 0,
+                                             "plan": r.get("plan")})
             g["runs"] += 1
     new_violations = []
     known_lines = []
@@ -237,7 +273,7 @@ def _report(spec: Dict[str, Any], tier: str, seed: int, jobs: int, results: List
     replay_paths = []
     for sig, g in new_violations[:6]:
         batch = next(b for b in spec["batches"] if b["name"] == g["batch"])
-        plan = make_plan(spec, seed, batch, g["run"], tier)
+        plan = g.get("plan") or make_plan(spec, seed, batch, g["run"], tier)
         try:
             path = replay_mod.minimise_and_save(spec, plan, sig, host, budget_s=float(os.environ.get("VERIF_SHRINK_S", "90")))
         except Exception as exc:  # noqa: BLE001
@@ -247,6 +283,22 @@ def _report(spec: Dict[str, Any], tier: str, seed: int, jobs: int, results: List
         out_lines.append(f"  signature={sig} first_run={g['batch']}/{g['run']} runs_with_it={g['runs']} detail={json.dumps(g['v']['detail'], default=str)[:400]}")
     for sig, g in new_violations[6:]:
         out_lines.append(f"VIOLATION property={prop} replay={replay_paths[0] if replay_paths else 'none'} (also: signature={sig})")
+    enum_bases: Dict[Any, Dict[str, Any]] = {}
+    for r in results:
+        e = r.get("enum")
+        if e:
+            b = enum_bases.setdefault((r["batch"], e["base"]), {"points": e["points"], "executed": 0, "slots": 0,
+                                                                "sampled": e.get("sampled", False)})
+            b["slots"] += 1
+            b["executed"] += 1 if e["executed"] else 0
+    enum_cov = None
+    if enum_bases:
+        enum_cov = {"base_plans": len(enum_bases),
+                    "fault_points_total": sum(b["points"] for b in enum_bases.values()),
+                    "fault_points_executed": sum(b["executed"] for b in enum_bases.values()),
+                    "base_plans_fully_enumerated": sum(1 for b in enum_bases.values() if b["executed"] >= b["points"] and not b["sampled"]),
+                    "base_plans_sampled": sum(1 for b in enum_bases.values() if b["sampled"]),
+                    "note": "a base plan is fully enumerated when every (file, open, call) x kind point of its target operation was executed once"}
     n_done = len(results)
     per_hour = n_done / wall * 3600 if wall > 0 else 0.0
     fired = {k[len("fault:"):]: v for k, v in probes.items() if k.startswith("fault:")}
@@ -277,6 +329,7 @@ def _report(spec: Dict[str, Any], tier: str, seed: int, jobs: int, results: List
                                    "plotting (visualize=False)"],
             "violations_of_other_properties_seen": other_props,
             "known_findings_reported": len(known_lines),
+            "fault_point_enumeration": enum_cov,
         },
         "assumptions": spec["assumptions"],
         "wall_s": round(wall, 2),
